@@ -6,6 +6,7 @@ export CARGO_NET_OFFLINE=true
 python3 tools/extract.py
 python3 tools/rs2lean.py /repo lean/Plonk/GeneratedWidgets.lean
 python3 tools/rs2lean_composer.py /repo lean/Plonk/GeneratedComposer.lean
+python3 tools/rs2lean_prover.py /repo lean/Plonk/GeneratedProver.lean
 python3 tools/gen_dispatch.py harness/src/dispatch.rs
 # every property module (so that no single check pays for a cold proof build) + the driver
 PROPS=$(ls lean/Plonk/Props/*.lean | sed 's#lean/Plonk/Props/\(.*\)\.lean#Plonk.Props.\1#')
